@@ -56,6 +56,8 @@ type Exec struct {
 	ghostOld *Snapshot
 	cexHook  func(e *Exec, st *State, o *Oblig) *Cex
 	recvIface types.Type
+	shapeVars map[string]*specVar
+	pendingBindings []Val
 	started    time.Time
 	wallBudget time.Duration
 	budgetHit  bool
